@@ -36,6 +36,8 @@ def one(sid, tier):
         lines = [l for l in p.stdout.splitlines() if l.startswith(("VIOLATION", "OK "))][:4]
         verdict = "CAUGHT" if (p.returncode == 1 and any(l.startswith("VIOLATION") for l in lines)) else \
                   ("MISSED" if p.returncode == 0 else "ERROR rc=%d" % p.returncode)
+        if verdict == "MISSED" and meta.get("neutralised_by_fix"):
+            verdict = "NEUTRALISED"  # the change no longer breaks the property on the repaired tree (see meta.json)
         lines.append("wall=%.0fs" % (time.time() - t0))
         subprocess.call(["rm", "-rf", ev])
     finally:
@@ -61,7 +63,7 @@ def main():
     with ThreadPoolExecutor(j) as ex:
         for sid, prop, verdict, lines in ex.map(lambda s: one(s, tier), ids):
             print("%-55s %s %s  %s" % (sid, prop, verdict, " | ".join(lines)[:200]), flush=True)
-            bad += verdict not in ("CAUGHT", "STALE")
+            bad += verdict not in ("CAUGHT", "STALE", "NEUTRALISED")
     subprocess.call(["git", "-C", "/repo", "worktree", "prune"])
     return 1 if bad else 0
 
